@@ -57,3 +57,14 @@ package verifier
 //@   circuit sound-only
 //@   requires chipok(c.glChip)
 //@   ensures canonProof(proof)
+
+// The fixed wrapper: four 128-bit public values pack the sixteen 32-bit plonky2 public inputs, big-endian.
+//@ def pack32(s, o) = s[o].Limb * pow2(96) + s[o+1].Limb * pow2(64) + s[o+2].Limb * pow2(32) + s[o+3].Limb
+
+//@ func (c *CircuitFixed) Define(api frontend.API) (err error)
+//@   props C03
+//@   circuit sound-only
+//@   ensures[count] implies(err == nil, len(c.ProofWithPis.PublicInputs) == 16)
+//@   ensures[limb-width] implies(err == nil, forall(k, 0, 16, c.ProofWithPis.PublicInputs[k].Limb < pow2(32)))
+//@   ensures[packing] implies(err == nil, forall(j, 0, 4, c.PublicInputs[j] == pack32(c.ProofWithPis.PublicInputs, 4*j)))
+//@   ensures[below-2-128] implies(err == nil, forall(j, 0, 4, c.PublicInputs[j] < pow2(128)))
